@@ -6,6 +6,7 @@ from mirsym.explore import Panic
 from mirsym import models_typst as T
 from mirsym.models_std import STD, Str, sym_str
 from . import libskel, kern, comments, lists, flows, markup, tables, mathargs, chains, conserve, deep, adjacency
+from mirsym.session import hexs, unhexs
 from .common import *
 
 EXPLANATION = (
@@ -74,6 +75,33 @@ def run(S):
     chains.report(S, 'C05', f7)
     f5 = tables.explore(S, 3 if S.tier == 'quick' else 4)
     tables.report(S, 'C05', f5)
+    # configuration arithmetic: Config::chain_width for every 64-bit width (IEEE semantics of the `as f32` / `as usize` casts via z3's FP theory)
+    def body_cw(ctx):
+        m = S.machine(S.core, STD, ctx)
+        w = z3.BitVec('max_width', 64)
+        cfg = Agg('Config', None, (z3.BitVec('tab', 64), w, 2, False), ('tab_spaces', 'max_width', 'blank_lines_upper_bound', 'reorder_import_items'))
+        try:
+            r = m.call_fn(S.find_fn(S.core, 'Config::chain_width'), [m.heap.alloc(cfg)])
+        except Panic as p:
+            S.absorb(m)
+            ctx.must_hold(False, 'C05:chain-width-panic', lambda mdl: dict(max_width=model_int(mdl, w), panic=p.msg))
+            return
+        S.absorb(m)
+        ctx.must_hold(z3.ULE(r, w) if is_sym(r) else True, 'C05:chain-width-exceeds-line-width', lambda mdl: dict(max_width=model_int(mdl, w)))
+    ob, ex = S.explore('config.chain_width', 'Config::chain_width does not panic and stays within the line width for every 64-bit max_width', body_cw)
+    for lab, mdl, info in ex.violations:
+        wv = info['max_width']
+        hit = None
+        for src in ('#let x = aaa.bbb.ccc(1, 2)\n', 'text #foo.bar.baz(1) more\n', '#let x = aaaa.bbbb().cccc().dddd()\n', '#a.b(c)\n'):
+            r = S.driver.call('format', hexs(src), wv, 2, 0)
+            if r[0] in ('panic', 'abort'):
+                hit = src
+                break
+        if hit:
+            S.violation(lab, '%s: format_content panics with max_width = %d on %s (%s)' % (lab, wv, show(hit), info.get('panic')),
+                        dict(api=dict(api='Typstyle::format_content', source=hit, width=wv), model=info))
+        else:
+            S.inconclusive.append('%s: solver model (max_width = %d) did not reproduce natively' % (lab, wv))
     # every converter real on shapes from real parses and on small whole documents: no path panics, for any context / configuration
     f8, cov8 = conserve.explore(S, want=('C05',), per_kind=15 if S.tier == 'quick' else 400, max_nodes=16 if S.tier == 'quick' else 40, deep=True)
     conserve.report(S, 'C05', f8)
